@@ -134,3 +134,42 @@ func C06_Eval_P2() { c06Eval(c06Exprs[nd.Choice(len(c06Exprs))], 2) }
 func C06_Eval_P3() { c06Eval(c06Exprs[nd.Choice(len(c06Exprs))], 3) }
 
 var _ = strconv.Itoa
+
+// C06_Fault_P*: the source fails (persistently) at a position chosen by the
+// engine while the parser may already have rejected a token: which error is
+// returned must not depend on the interleaving (and it is the read error).
+func c06Fault(preempt int) {
+	srcs := []string{"| ", "a | | ", "a && || ", "if a; then b; fi | && ", "a; ; ", "a <<E ; ;\nx\n", "$(a | | ", "a ) `b"}
+	src := []rune(srcs[nd.Choice(len(srcs))])
+	failAt := nd.Choice(len(src) + 1)
+	s0 := NewScanner(src)
+	s0.FailAt = failAt
+	_, _, err0 := parser.ParseCommands(nil, "src", s0)
+	used0 := s0.I
+	nd.Drain()
+
+	nd.SchedMode(preempt)
+	nd.RaceMonitor(true)
+	s1 := NewScanner(src)
+	s1.FailAt = failAt
+	before := nd.Goroutines()
+	_, _, err1 := parser.ParseCommands(nil, "src", s1)
+	used1 := s1.I
+	alive := nd.Goroutines() - before
+	nd.RaceMonitor(false)
+	nd.SchedMode(-1)
+	nd.Observe(string(src) + " @" + itoa(failAt))
+	nd.Assert(alive <= 0, "when ParseCommands returns no goroutine started by it is still running")
+	nd.Drain()
+	if errStr(err1) != errStr(err0) {
+		nd.Observe(errStr(err0) + " <> " + errStr(err1))
+	}
+	nd.Assert(errStr(err1) == errStr(err0), "the error is the same under every interleaving (failing source)")
+	nd.Assert(used1 == used0, "the amount of input consumed is the same under every interleaving (failing source)")
+	if s1.Failed {
+		nd.Assert(err1 != nil && isErr(err1, ErrInjected), "a read fault is reported as that fault under every interleaving")
+	}
+}
+
+func C06_Fault_P1() { c06Fault(1) }
+func C06_Fault_P2() { c06Fault(2) }
